@@ -296,6 +296,8 @@ def deductive(rep: Report, tier):
                          scope=f"shape-bounded(n={n}, right-hand sides={k}; all entries)", replay=replay_solves, timeout_s=60, site_obligations=False, algebra=True)
     dense_substitution_all_n(rep)
     utriangle_all_n(rep)
+    if tier == "thorough":
+        hess_qr_sweep_all_sizes(rep)      # nonlinear identities: minutes of solver time, thorough tier only
     # regularisation size: 1 - theta <= 1e-30 / |t|^2
     d = z3.Real("d")
     v = smt.prove([d > 0], 1 - d / (d + z3.RealVal("1/1000000000000000000000000000000")) <= z3.RealVal("1/1000000000000000000000000000000") / d, 10)
@@ -594,6 +596,142 @@ def utriangle_all_n(rep: Report):
         run_case(rep, P, QN, "all_n.nonsingular" if nonsingular else "all_n.any_diagonal", lambda I, ctx, ns=nonsingular: setup(I, ctx, ns), post, lib=lib,
                  contracts={U + "timesQsparse": k_times}, loop_rules={(QN, 0): rule},
                  clauses=["returns_the_overwritten_right_hand_side"] + (["every_row_is_solved"] if nonsingular else []), replay=replay_solves, timeout_s=60, max_paths=300)
+
+
+def hess_qr_sweep_all_sizes(rep: Report):
+    """Hess_QR_ggivens, the Givens sweep over the sub-diagonal, for EVERY size (m quaternion rows, n columns; stacked component
+    representation [A0; A1; A2; A3]).  ggivens by its contract (proved above: G is the component-blocked embedding of a 2 x 2
+    quaternion matrix M with M^H M = I and M^H [x1; x2] = [rho; 0]); the embedding is produced by running the REAL Realp on M.
+    With Hq(r, c) the quaternion formed by rows r, m+r, 2m+r, 3m+r of column c, ghost rows RF (final) and TS (the row being
+    rotated), the loop invariant at step s is
+        rows < s of Hq are RF,  row s is TS(s, .),  rows > s are still the input;   TS(s, c) = 0 and RF(r, c) = 0 left of the diagonal
+    and each step is   [RF(s, c); TS(s+1, c)] = M^H [TS(s, c); H0(s+1, c)]   for c >= s, nothing else touched   (input assumed
+    upper Hessenberg).  Hence R is upper triangular after the sweep.  The accumulation of W (columns rotated by M) and the final
+    re-layout are decided by the bounded stand-in; W R = H and W unitary then follow step by step from  (W M)(M^H H) = W H."""
+    from ..interp import LoopRule
+    from ..rules import _set_whole
+    from ..sym import PathAbort
+    QN = U + "Hess_QR_ggivens"
+    I_ = z3.IntSort()
+    zi = SInt.lift
+
+    def F(name, *sorts):
+        return [z3.Function(f"{name}{c}", *sorts, z3.RealSort()) for c in range(4)]
+    RF, TS, H0 = F("RFh", I_, I_), F("TSh", I_, I_), F("H0h", I_, I_)
+
+    def q(fs, *a):
+        return ix.QScal(*[SReal.mk(f(*[zi(x) for x in a])) for f in fs])
+
+    def h0(r, c):      # upper Hessenberg input: zero below the first sub-diagonal
+        return ix.ite(c < r - 1, ix.QScal(Fraction(0)), q(H0, r, c))
+
+    def ts(s_, c):
+        return ix.ite(SBool.mk(zi(s_) == zi(0)), h0(0, c), ix.ite(c < s_, ix.QScal(Fraction(0)), q(TS, s_, c)))
+
+    def rf(r, c):
+        return ix.ite(c < r, ix.QScal(Fraction(0)), q(RF, r, c))
+
+    def closed(m, s_):
+        """cell (rho, c) of the stacked real array at the head of step s_"""
+        def hq(r, c):
+            return ix.ite(r < s_, rf(r, c), ix.ite(SBool.mk(zi(r) == zi(s_)), ts(s_, c), h0(r, c)))
+
+        def cell(vi):
+            rho, c = vi
+            return ix.ite(rho < m, hq(rho, c).c[0], ix.ite(rho < 2 * m, hq(rho - m, c).c[1], ix.ite(rho < 3 * m, hq(rho - 2 * m, c).c[2], hq(rho - 3 * m, c).c[3])))
+        return cell
+
+    class Sweep(LoopRule):
+        modifies = ("Hess", "W")
+
+        def establish(self, it, fr, start):
+            c = cur()
+            m = fr.vars["m"]
+            cond, _ = ix.pointwise_eq(c, fr.vars["Hess"], closed(m, start))
+            c.require("inv.establish", cond, "before the sweep the array is the (upper Hessenberg) input", key="hessqr.sweep.inv.establish")
+
+        def havoc(self, it, fr, s_):
+            c = cur()
+            if c.ghost.get("_havoc_kind") == "exhausted":
+                raise PathAbort("after the sweep: last-column rotation and re-layout are not part of this obligation")
+            m = fr.vars["m"]
+            _set_whole(fr.vars["Hess"], closed(m, s_))
+            tag = c.fresh_name("Wh")
+            wf = z3.Function(tag, I_, I_, z3.RealSort())
+            _set_whole(fr.vars["W"], lambda vi: SReal.mk(wf(zi(vi[0]), zi(vi[1]))))
+            c.ghost["step"] = s_
+
+        def preserve(self, it, fr, s_):
+            c = cur()
+            g = c.ghost
+            m, n = fr.vars["m"], fr.vars["n"]
+            Hs = fr.vars["Hess"]
+            M = g["M"]                      # 2 x 2 quaternion matrix of this step's rotation (from the ggivens contract)
+            # the contract of ggivens speaks about its arguments; they are the entries (s, s) and (s+1, s) of the current state
+            X1, X2 = g["givens_args"]
+            c.require("step", sand(ix.scal_eq(X1, ts(s_, s_)), ix.scal_eq(X2, h0(s_ + 1, s_))), "ggivens is called on the diagonal and sub-diagonal entry of column s",
+                      key="hessqr.sweep.step.rotation_built_from_column_s")
+            # hence (substituting equals into the contract's equation) the rotation annihilates the sub-diagonal entry of column s
+            c.assume(ix.scal_eq(M[0][1].conj() * ts(s_, s_) + M[1][1].conj() * h0(s_ + 1, s_), ix.QScal(Fraction(0))))
+            col = ix.fresh_indices(c, [n], "c")[0]
+            c.assume(col >= s_)
+            top, bot = ts(s_, col), h0(s_ + 1, col)
+            new_top = M[0][0].conj() * top + M[1][0].conj() * bot
+            new_bot = M[0][1].conj() * top + M[1][1].conj() * bot
+            # (1) the eight updated rows, one obligation per component and row: a polynomial identity between what the code
+            #     computed (G^T times the gathered rows) and the quaternion product M^H [top; bottom]
+            for comp in range(4):
+                for which, want in ((0, new_top), (1, new_bot)):
+                    have = Hs.at(s_ + which + comp * m, col)
+                    c.require("step", SBool.mk(SReal.lift(have) == SReal.lift(want.c[comp])),
+                              f"component {comp} of row s+{which} is that of M^H [row s; row s+1]", key=f"hessqr.sweep.step.rotated.c{comp}.r{which}", timeout_s=60)
+            # (2) frame: every other row, and the columns left of s in the two rotated rows, are untouched
+            rho, c2 = ix.fresh_indices(c, [4 * m, n], "e")
+            untouched = sor(c2 < s_, sand(*[snot(SBool.mk(zi(rho) == zi(s_ + w + k * m))) for w in (0, 1) for k in range(4)]))
+            c.require("inv.preserve", sor(snot(untouched), SBool.mk(SReal.lift(Hs.at(rho, c2)) == SReal.lift(closed(m, s_)((rho, c2))))),
+                      "rows other than s, s+1 (in every component block) and columns < s are not written", key="hessqr.sweep.inv.preserve.frame", timeout_s=60)
+            # (3) with the naming RF(s, .) := new top row, TS(s+1, .) := new bottom row (and TS(s+1, s) = 0 by the step above) the
+            #     state is the closed form for s+1: checked pointwise on the rotated rows
+            c.assume(ix.scal_eq(q(RF, s_, col), new_top))
+            c.assume(ix.scal_eq(q(TS, s_ + 1, col), new_bot))
+            for comp in range(4):
+                for which in (0, 1):
+                    have = Hs.at(s_ + which + comp * m, col)
+                    want = closed(m, s_ + 1)((s_ + which + comp * m, col))
+                    c.require("inv.preserve", SBool.mk(SReal.lift(have) == SReal.lift(want)), "rotated rows match the invariant for s+1", key=f"hessqr.sweep.inv.preserve.rows.c{comp}.r{which}", timeout_s=60)
+
+    def k_ggivens(I, args, kwargs):
+        x1, x2 = args
+        c = cur()
+        tag = c.fresh_name("M")
+        M = [[ix.QScal(*[SReal.var(f"{tag}.{a}{b}.{k}") for k in range(4)]) for b in range(2)] for a in range(2)]
+        comps = [ix.IArr.from_fn([2, 2], lambda vi, k=k: ix.ite(SBool.mk(zi(vi[0]) == zi(0)), ix.ite(SBool.mk(zi(vi[1]) == zi(0)), M[0][0].c[k], M[0][1].c[k]),
+                                                               ix.ite(SBool.mk(zi(vi[1]) == zi(0)), M[1][0].c[k], M[1][1].c[k]))) for k in range(4)]
+        G = I.call_qual(U + "Realp", *comps)
+        # contract of ggivens (obligations C16.ggivens.*): M^H [x1; x2] = [rho; 0]
+        X1 = ix.QScal(*[x1.at(k) for k in range(4)])
+        X2 = ix.QScal(*[x2.at(k) for k in range(4)])
+        c.ghost["givens_args"] = (X1, X2)      # contract: M^H [X1; X2] = [rho; 0]  (used by the rule after checking what X1, X2 are)
+        c.ghost["M"] = M
+        return G
+
+    def setup(I, ctx):
+        m, n = dims(ctx, "m", "n")
+        ctx.assume(sand(m >= 2, n >= m - 1), base=True)        # a (k+1) x k Hessenberg matrix has n = m - 1 columns; wider input is allowed
+        Hs = ix.IArr.from_fn([4 * m, n], closed(m, 0))
+        return [Hs], {}, (m, n)
+
+    def post(I, ctx, outcome, val, aux):
+        return []
+    from .c01 import dims
+    lib = Library("idx")
+    n0 = len(rep.obligations)
+    run_case(rep, P, QN, "sweep.all_sizes", setup, post, lib=lib, contracts={U + "ggivens": k_ggivens}, loop_rules={(QN, 0): Sweep()},
+             clauses=[], replay=replay_solves, timeout_s=120, max_paths=200)
+    got = {o.id for o in rep.obligations[n0:]}
+    for need in ("hessqr.sweep.step.rotated.c0.r0", "hessqr.sweep.step.rotated.c3.r1", "hessqr.sweep.inv.preserve.frame", "hessqr.sweep.step.rotation_built_from_column_s"):
+        if not any(need in i for i in got):
+            rep.add(Obligation(f"{P}.Hess_QR_ggivens.sweep.{need}.reached", QN, "all-shapes", smt.UNDECIDED, "none", 0.0, {"reason": "obligation was not generated (vacuity guard)"}))
 
 
 def ssqrt_expr(vals):
